@@ -27,7 +27,14 @@ def workdir(name, clean=True):
 
 
 def unescape(s):
-    """undo TLC's escaping of a string value as printed by PrintT"""
+    """undo TLC's escaping of a string value as printed by PrintT (TLC's escapes are JSON string escapes)"""
+    try:
+        return json.loads('"' + s + '"')
+    except ValueError:
+        return _unescape_slow(s)
+
+
+def _unescape_slow(s):
     out = []
     i = 0
     while i < len(s):
@@ -52,7 +59,8 @@ def run(module, cfg, name, workers=16, timeout=1800, env=None, simulate=None, ex
     jtmp = os.path.join(WORK, "jtmp")
     os.makedirs(jtmp, exist_ok=True)
     out_path = os.path.join(wd, "out.txt")
-    cmd = ["java", "-XX:+UseParallelGC", "-Djava.io.tmpdir=" + jtmp]
+    # one-worker judge shards run 16 at a time: a serial collector avoids 16 x 16 GC threads fighting for the cores
+    cmd = ["java", "-XX:+UseSerialGC" if workers == 1 else "-XX:+UseParallelGC", "-Djava.io.tmpdir=" + jtmp]
     if heap:
         cmd.append("-Xmx" + heap)
     cmd += ["-cp", JAR, "tlc2.TLC", "-workers", str(workers), "-metadir", os.path.join(wd, "md"),
